@@ -4,6 +4,11 @@
 import MptModel.Impl.Ring
 namespace Mpt
 
+/-- close a goal that is an equation between nested `if`s over `s[idx]?` terms: split every `if`,
+    then decide each leaf by linear arithmetic on the conditions and the indices -/
+macro "ite_idx" : tactic =>
+  `(tactic| ((repeat' split) <;> first | rfl | omega | (congr 1; omega) | (exfalso; omega)))
+
 theorem Mem.write_length (s : List Byte) (d : Nat) (b : List Byte) (h : d + b.length ≤ s.length) :
     (Mem.write s d b).length = s.length := by
   simp [Mem.write]; omega
